@@ -129,8 +129,9 @@ CMP = ["<", "<=", ">", ">=", "==", "!="]
 
 
 class Gen:
-    def __init__(self, draw, max_depth=3, allow_tracing=True, fuel_max=4, size=1.0):
+    def __init__(self, draw, max_depth=3, allow_tracing=True, fuel_max=4, size=1.0, prefix=""):
         self.draw = draw
+        self.prefix = prefix
         self.flags = Flags()
         self.funcs: list[Func] = []
         self.counter = 0
@@ -149,7 +150,7 @@ class Gen:
 
     def tag(self):
         self.tag_counter += 1
-        return f"t{self.tag_counter}"
+        return f"{self.prefix}t{self.tag_counter}"
 
     def pick(self, xs):
         return xs[self.d(st.integers(0, len(xs) - 1))]
@@ -744,7 +745,7 @@ class Gen:
 
     # ---- functions ---------------------------------------------------------------------
     def function(self, idx, pure):
-        name = f"f{idx}"
+        name = f"{self.prefix}f{idx}"
         n = self.d(st.integers(0, 3))
         params = [(self.fresh("a"), self.value_type()) for _ in range(n)]
         ret = self.value_type()
@@ -811,20 +812,41 @@ class Gen:
                 for j, (src, lt) in enumerate(leaves(rv, f.ret)):
                     lines.append(f'result("{f.name}_{k}_{j}", {src})')
                 k += 1
-        return ["@guppy", "def main() -> None:"] + self.indent(lines)
+        return ["@guppy", f"def {self.prefix}main() -> None:"] + self.indent(lines)
+
+
+def _one(draw, n_funcs, max_depth, size, fuel_max, prefix):
+    g = Gen(draw, max_depth=max_depth, fuel_max=fuel_max, size=size, prefix=prefix)
+    n = draw(st.integers(*n_funcs))
+    parts = []
+    for i in range(n):
+        pure = g.chance(0.5) if i < n - 1 else False
+        parts.append("\n".join(g.function(i, pure)))
+    parts.append("\n".join(g.main()))
+    fl = g.flags
+    nontrivial = bool((fl.loops >= 1 or fl.ifs >= 2) and fl.same_type_cross >= 1)
+    return "\n\n".join(parts) + "\n", fl.labels(), nontrivial
 
 
 @st.composite
 def programs(draw, n_funcs=(1, 4), max_depth=3, size=1.0, fuel_max=4):
     """-> dict(src=<module body without import prelude>, labels=[...], nontrivial=bool)"""
-    g = Gen(draw, max_depth=max_depth, fuel_max=fuel_max, size=size)
-    n = draw(st.integers(*n_funcs))
-    parts = [STRUCT_SRC.strip("\n")]
-    for i in range(n):
-        pure = g.chance(0.5) if i < n - 1 else False
-        parts.append("\n".join(g.function(i, pure)))
-    parts.append("\n".join(g.main()))
-    src = "\n\n".join(parts) + "\n"
-    fl = g.flags
-    nontrivial = (fl.loops >= 1 or fl.ifs >= 2) and fl.same_type_cross >= 1
-    return {"src": src, "labels": fl.labels(), "nontrivial": nontrivial}
+    body, labels, nontrivial = _one(draw, n_funcs, max_depth, size, fuel_max, "")
+    return {"src": STRUCT_SRC.strip("\n") + "\n\n" + body, "labels": labels, "nontrivial": nontrivial}
+
+
+@st.composite
+def program_batches(draw, k=4, n_funcs=(1, 3), max_depth=3, size=1.0, fuel_max=4):
+    """k independent programs in one module (one selene build): program i uses the name prefix
+    `p{i}_` for its functions, its main and its result tags; the module's `main` calls them in turn.
+    -> dict(src, parts=[standalone source of each program], labels=[[...]], nontrivial=[bool])"""
+    bodies, labels, nts = [], [], []
+    for i in range(k):
+        b, l, nt = _one(draw, n_funcs, max_depth, size, fuel_max, f"p{i}_")
+        bodies.append(b)
+        labels.append(l)
+        nts.append(nt)
+    head = STRUCT_SRC.strip("\n") + "\n\n"
+    main = "@guppy\ndef main() -> None:\n" + "".join(f"    p{i}_main()\n" for i in range(k))
+    parts = [head + b + f"\n@guppy\ndef main() -> None:\n    p{i}_main()\n" for i, b in enumerate(bodies)]
+    return {"src": head + "\n".join(bodies) + "\n" + main, "parts": parts, "labels": labels, "nontrivial": nts}
